@@ -186,8 +186,43 @@ def answerAux (ws : List String) : String :=
     | _, _, _, _ => "bad-case"
   | _ => "bad-case"
 
+def parseSt (s : String) : Option ReqM.St :=
+  match s with
+  | "b" => some .bug | "e" => some .error | "d" => some .direct | "r" => some .recursive
+  | "i" => some .indirect | "u" => some .unpinned
+  | _ => none
+
+def showSt : ReqM.St → String
+  | .bug => "b" | .error => "e" | .direct => "d" | .recursive => "r" | .indirect => "i" | .unpinned => "u"
+
+/-- `_` stands for a blank, `~` for the empty text -/
+def decText (s : String) : String := if s == "~" then "" else s.replace "_" " "
+
+def showTypes (o : ReqM.TypesOut) : String :=
+  s!"{showSt o.parsed} {if o.pinnedParsed then 1 else 0} {if o.pinnedStatus then 1 else 0} {o.pinType} {o.roundTrip}"
+
+/-- `types <text> <status> <depth> => <parsed> <IsPinned of parsed> <IsPinned of status> <pin type> <round trip>` -/
+def answerTypes (ws : List String) : String :=
+  match splitArrow ws with
+  | some ([text, st, d], [parsed, pp, ps, pt, rt]) =>
+    match parseSt st, d.toInt?, parseSt parsed, bool01 pp, bool01 ps with
+    | some st, some d, some parsed, some pp, some ps =>
+      let text := decText text
+      let o : ReqM.TypesOut := ⟨parsed, pp, ps, decText pt, decText rt⟩
+      let armS := "types-" ++ showSt parsed ++ "-" ++ (if d < 0 then "neg" else if d == 0 then "zero" else "pos") ++
+        "-" ++ (if pp then "pinned" else "not") ++ "-" ++ showSt st ++ (if ps then "1" else "0")
+      let failed := (ReqM.typesClauses text st d o).filter (fun c => !c.2)
+      if !failed.isEmpty then "propfail " ++ ",".intercalate (failed.map (·.1)) ++ " arm=" ++ armS
+      else
+        match ReqM.typesT Gen.fromStringTable Gen.isPinnedTable Gen.toPinModeTable Gen.pinModeStringTable text st d with
+        | none => "diff arm=" ++ armS ++ " model=none"
+        | some m => if m != o then "diff arm=" ++ armS ++ " model=" ++ showTypes m else "ok arm=" ++ armS
+    | _, _, _, _, _ => "bad-case"
+  | _ => "bad-case"
+
 def answer (ws : List String) : String :=
   if ws.head? == some "aux" then answerAux ws.tail else
+  if ws.head? == some "types" then answerTypes ws.tail else
   match parseCase ws with
   | none => "bad-case"
   | some (i, o) =>
